@@ -370,10 +370,10 @@ func runFaults(c *vf.Ctx, g *gitx.Git, bases []*wtlab.Base, only string) {
 		}
 	})
 	if only == "" {
-		c.Floor("faults injected", c.Counter("faults_injected"), c.N(1000, 10000))
-		c.Floor("faulted calls that returned an error", c.Counter("faulted_calls_returning_error"), c.N(500, 5000))
+		c.Floor("faults injected", c.Counter("faults_injected"), c.N(1000, 5000))
+		c.Floor("faulted calls that returned an error", c.Counter("faulted_calls_returning_error"), c.N(500, 3000))
 		c.Floor("recorded executions", c.Counter("recorded_executions"), c.N(14, 60))
 		c.Floor("distinct fs-op kinds faulted", c.SeenCount("faulted_fs_op_kinds"), 10)
-		c.Floor("faulted calls that left the state unchanged", c.Counter("faulted_calls_state_unchanged"), c.N(150, 1500))
+		c.Floor("faulted calls that left the state unchanged", c.Counter("faulted_calls_state_unchanged"), c.N(150, 1000))
 	}
 }
